@@ -263,6 +263,8 @@ MUTANTS = [
     ('C16', 'lattice_lib.py', '    if not monotonicities or monotonicities[main_dim] != 1:', '    if monotonicities[main_dim] != 1:', 'N1', 'subscript of possibly-None monotonicities'),
     ('C16', 'lattice_lib.py', '      list(edgeworth_trusts or []) + list(trapezoid_trusts or [])) or []', '      (edgeworth_trusts or []) + (trapezoid_trusts or [])) or []', 'T3', 'tuple trusts concatenated with a list'),
     ('C16', 'lattice_lib.py', '    if dominant_dim == weak_dim:\n      raise ValueError("%s dominance constraint must relate two different "', '    if dominant_dim == -1:\n      raise ValueError("%s dominance constraint must relate two different "', 'V9', 'degenerate dominance pair accepted'),
+    ('C18', 'premade_lib.py', '  if total_weight <= 0:\n    # Without any weight left all values count equally.\n    weights = np.ones(len(weights))\n    total_weight = np.sum(weights)\n', '', 'D3', 'zero total weight divides'),
+    ('C17', 'premade_lib.py', '    if max_weight > 0:\n      weights /= max_weight', '    weights /= max_weight', 'D3', 'constant lattice normalised by 0'),
     ('C17', 'premade_lib.py', '        # going out of bound on the lattice\n        addition_score = -2.0',
      '        # going out of bound on the lattice\n        addition_score = -1.0', 'W7', 'full lattice ties with a repeat'),
     ('C17', 'premade_lib.py', '        # going out of bound on the lattice\n        addition_score = -2.0',
